@@ -8,6 +8,7 @@ import ALV.Lemmas.C19Shapes
 import ALV.Lemmas.C19Table
 import ALV.Lemmas.C19Real
 import ALV.Lemmas.C19Resample
+import ALV.Lemmas.C19TableOps
 import Mathlib.Tactic.NormNum
 import ALV.Common.Audit
 
@@ -173,6 +174,15 @@ theorem table_lookup_eq_spec (tbl : List K) (h : tbl ≠ []) (den : K) (freq pha
     tableCall tbl den freq phase n = (tableSpec tbl den freq phase n).map some :=
   tableCall_eq tbl h den freq phase n
 
+/-- **C19.table.1b** for a constant frequency and phase: sample `k` is the table read at
+`c·phase + k·c·freq`. -/
+theorem table_lookup_numbers (tbl : List K) (den f p : K) (n : Nat) :
+    tableSpec tbl den (.num f) (.num p) n
+      = (List.range n).map fun (k : Nat) =>
+          interpCyc tbl (((tbl.length : Int) : K) / den * p
+            + (((k : Nat) : ℤ) : K) * (((tbl.length : Int) : K) / den * f)) :=
+  tableSpec_numbers tbl den f p n
+
 /-- **C19.table.2** the interpolation is cyclic: whole table lengths do not matter. -/
 theorem interp_cyclic (tbl : List K) (x : K) (z : ℤ) :
     interpCyc tbl (x + z * ((tbl.length : ℤ) : K)) = interpCyc tbl x :=
@@ -185,6 +195,22 @@ theorem table_getitem_eq_spec (tbl : List K) (h : tbl ≠ []) (idx : K)
     (hidx : 0 ≤ idx ∨ idx = ((⌊idx⌋ : ℤ) : K)) :
     tableGetItem tbl idx = some (interpCyc tbl idx) :=
   tableGetItem_eq tbl h idx hidx
+
+/-- **C19.table.4** operators act on the table contents element by element (equal cycles and
+sizes; otherwise the model raises ValueError as the code does). -/
+theorem table_binary_elementwise (op : TOp) (t1 t2 : List K) (c : K) (h : t1.length = t2.length) :
+    tblBinary op t1 c t2 c = .ok (List.zipWith op.app t1 t2) := tblBinary_ok op t1 t2 c h
+
+/-- **C19.table.5** `normalize()` keeps the size, every value lies within [-1, 1] and the value
+1 is reached (the element of largest magnitude is divided by itself). -/
+theorem table_normalize_range (t r : List K) (h : tblNormalize t = .ok r) :
+    r.length = t.length ∧ (∀ x ∈ r, |x| ≤ 1) ∧ (1 : K) ∈ r := tblNormalize_range t r h
+
+/-- **C19.table.6** `harmonize`: when `partial + 1` divides the table length, partial `p` reads
+the table `p + 1` times as fast, cyclically: entry `k` is `Σ amplitude_p · table[k·(p+1) mod len]`. -/
+theorem table_harmonize_eq_spec (t : List K) (harm : List (Nat × K))
+    (hd : ∀ pa ∈ harm, (pa.1 + 1) ∣ t.length) :
+    tblHarmonize t harm = harmonizeSpec t harm := tblHarmonize_eq t harm hd
 
 /-- **C19.sin.1** `sinusoid(freq, phase)` sample `k` is `sin(phase_k + Σ_{i<k} freq_i)`: the
 reduction modulo `2π` inside the counter is invisible (over ℝ, for every path and every `n`). -/
@@ -211,6 +237,9 @@ example : tableGetItem [(0 : Rat), 10, 20, 30] (7/2) = some 15 := by decide +ker
 -- D15: a negative fractional index is not interpolated by the code
 example : tableGetItem [(0 : Rat), 10, 20, 30] (-1/2) = some 0 ∧ interpCyc [(0 : Rat), 10, 20, 30] (-1/2) = 15 := by
   decide +kernel
+example : tblHarmonize [(0 : Rat), 1, 2, 3, 4, 5] [(0, 1), (1, 1/2), (2, 2)] = [0, 8, 4, 9, 5, 13] := by
+  decide +kernel
+example : tblNormalize [(1 : Rat), -2] = .ok [-1/2, 1] := by decide +kernel
 example : karplus (1 : Rat) (9/4) [1, 2, 3] 6 = [9/4, 5/4, 31/16, 3/2, 113/64, 103/64] := by decide +kernel
 
 /-! ## resample -/
